@@ -735,6 +735,8 @@ def gen_c12(r, knobs=None):
                 b.req(cid, n)
             b.op(op='insp', cid=cid, kind='run_info')
             b.op(op='insp', cid=cid, kind='log')
+            if r.random() < 0.3:
+                b.op(op='insp', cid=cid, kind='links', name=None, keep=r.random() < 0.3)
             b.op(op='insp', cid=cid, kind='has_data')
     return b.scenario()
 
@@ -762,7 +764,7 @@ def gen_c20(r, knobs=None):
     first_real_done = False
     for step in plan:
         b.proc(hs=r.choice([0, 1, 2]))
-        b.op(op='migrate', root=root, render=rd, store='src', target='tgt', dry=(step == 'dry'), verbose=r.random() < 0.5)
+        b.op(op='migrate', root=root, render=rd, store='src', target='tgt', dry=(step == 'dry'), verbose=r.random() < 0.5, prechain=r.random() < 0.25)
         b.op(op='ls', store='src', expect='unchanged', what='source')
         if step == 'dry' and not first_real_done:
             b.op(op='ls', store='tgt', expect='no_files')
